@@ -1,18 +1,16 @@
 # C04 - with TLS required nothing sensitive leaves before the link is encrypted: single inductive steps (see c04.h)
-LOCAL_SHADOW = True   # engine sid-hash false collision between the RTTI names of ShadowContImpl / ShadowContImplV (reported); local copy with one class renamed
-TUS = ['src/client/QXmppConfiguration.cpp', 'src/base/QXmppStreamFeatures.cpp', 'src/base/Stream.cpp', 'src/base/QXmppUtils.cpp',
+TUS = ['src/client/QXmppConfiguration.cpp', 'src/base/QXmppStreamFeatures.cpp', 'src/base/QXmppStreamManagement.cpp', 'src/base/Stream.cpp', 'src/base/QXmppUtils.cpp',
        'src/base/QXmppIq.cpp', 'src/base/QXmppStanza.cpp', 'src/base/QXmppNonSASLAuth.cpp', 'src/base/QXmppBindIq.cpp']
 MODELS = ['qt_core.c', 'qt_list.c', 'qt_dom.c', 'qt_object.c', 'c04_models.c']
-if not LOCAL_SHADOW: TUS.append('src/base/QXmppStreamManagement.cpp')
 def I(name, entry, cfg, bound, **kw):
     d = dict(name=name, entry='h_' + entry, unwind=5, timeout_s=300, mem_gb=6, cdefs={'VP_CFG': cfg}, bound=bound); d.update(kw); return d
 SPEC = dict(
     property='C04',
     groups=[
-        dict(name='step', harness='h.cpp', tus=TUS, models=MODELS, shadow_task=not LOCAL_SHADOW, cxxdefs=({'VP_LOCAL_SHADOW': 1} if LOCAL_SHADOW else {}),
+        dict(name='step', harness='h.cpp', tus=TUS, models=MODELS, shadow_task=True,
              instances=[
                  I('start', 'start', 1 | 16, 'arbitrary INV pre-state'),
-             ] + [I('features_tls%d_ssl%d' % (t, l), 'features', l | 16 | t << 5, 'arbitrary INV pre-state; arbitrary features') for t in (0, 1, 2) for l in (0, 1)
+             ] + [I('features_tls%d_ssl%d_s%d' % (t, l, k), 'features', l | 16 | t << 5 | k << 7, 'arbitrary INV pre-state; arbitrary features') for t in (0, 1, 2) for l in (0, 1) for k in (0, 1, 2)
              ]),
     ],
     bounds=[],
